@@ -33,6 +33,9 @@ for n in sorted(shapes):
     row = []
     for i in range(math.prod(shapes[n])):
         v = vals.get(f'{n}_{i}')
+        if n in (r.get('concrete') or {}):
+            cv = float(r['concrete'][n][i])
+            v = cv if kind == 'real' else (math.log(cv) if cv > 0 else -math.inf)
         if v is None:
             v = B.pyzero if prof and prof[c] == 'Z' else {'real': 0.75, 'log': -0.5}[kind]
         row.append(v)
@@ -46,12 +49,14 @@ try:
         zv = [vals.get(f'z_{n}', 1.0) for n in r['scc']]
         cot = [vals.get(f'c{j}', 1.0) for j in range(len(r['scc']))]
         items, Z = R.run_recursive_backward(B, r, flat, zv, cot), zv
+    elif r.get('linrec'):
+        items, Z = R.run_linear_recursive(B, r, flat, cot), None
     else:
         items, Z = R.run_nonrecursive(B, r, flat, cot)
 except Exception as e:
     traceback.print_exc()
     print('replay: exception', type(e).__name__, e)
-    sys.exit(10)
+    sys.exit(10 if r.get('claim') == 'exception' else 11)
 bad = []
 for name, got, want in items:
     if len(got) != len(want) or not all(OF.close(a, b, rtol=1e-5, atol=1e-8) for a, b in zip(got, want)):
